@@ -17,9 +17,20 @@ EXCLUDED_ENDINGS = ('out-of-fuel', 'stack-overflow')
 
 
 def known_iv(iv_log):
-    """Known_C02_iv_guard: an induction-variable elimination replaced a guard that is not `<`,
-    or used a multiplier that is not a positive constant (the rewritten guard is always `<`)."""
-    return any(op != 0 or m is None or m <= 0 for op, m in iv_log)
+    """Known_C02_iv_guard: an induction-variable elimination rewrote `i op g` into `m*i+c < m*g+c` where that is not an
+    equivalence: the guard is not `<`, the multiplier is not a positive constant, or the new bound m*g+c / the new initial
+    value m*i0+c is not known to be representable (a constant that fits 32 bits): the code computes both in wrapping
+    arithmetic without a check."""
+    def in32(x):
+        return -2 ** 31 <= x <= 2 ** 31 - 1
+    for e in iv_log:
+        op, m = e[0], e[1]
+        c, g, i0 = (e + [None, None, None])[2:5] if isinstance(e, list) else (None, None, None)
+        if op != 0 or m is None or m <= 0:
+            return True
+        if c is None or g is None or i0 is None or not in32(m * g + c) or not in32(m * i0 + c):
+            return True
+    return False
 
 
 def excluded(unopt):
